@@ -65,6 +65,7 @@ class Ctx:
     def __init__(self, h: Harness, eng: Engine, known_active: set[str]):
         self.h = h
         self.eng = eng
+        eng.hid = h.id
         self.known_active = known_active
         self.loaded: list[_loader.Loaded] = []
 
